@@ -10,6 +10,7 @@ export CARGO_NET_OFFLINE=true
 FEAT=""
 grep -q "P256\|use-p256\|XChaCha" "$SD/demo.rs" && FEAT="--features use-p256,use-xchacha20poly1305,ring-resolver,risky-raw-split"
 grep -q "RingResolver\|ring" "$SD/demo.rs" && FEAT="--features use-p256,use-xchacha20poly1305,ring-resolver,risky-raw-split"
+grep -q "features: default" "$SD/demo.rs" && FEAT=""   # a defect of the default-features build only
 echo "== demo without change ($FEAT)"
 cargo test --offline $FEAT --test zz_seed_demo > "$SD/confirm_demo_clean.log" 2>&1; A=$?
 git apply "$SD/patch.diff" || { echo "patch does not apply"; rm -f tests/zz_seed_demo.rs; exit 3; }
